@@ -1,0 +1,4 @@
+// Package simhook holds the seams a deterministic simulator needs to own goroutine
+// interleaving and outbound connections of scrapligo. Without the build tag "verif" every
+// function here is an empty, inlinable no-op and the shipped behaviour is unchanged.
+package simhook
